@@ -270,7 +270,7 @@ impl Transaction {
                 if let Some(x) = &self.hash_cache.hash_sequence {
                     return x.to_bytes();
                 }
-                let input_sequences: Vec<u8> = self.inputs.iter().flat_map(|x| x.get_sequence_as_bytes()).collect();
+                let input_sequences: Vec<u8> = self.inputs.iter().flat_map(|x| x.get_sequence().to_le_bytes()).collect();
                 let hash = Hash::sha_256d(&input_sequences);
                 self.hash_cache.hash_sequence = Some(hash.clone());
                 hash.to_bytes()
